@@ -3,7 +3,7 @@
    for the adapter's copy (actor/table_engine_adapter.go). *)
 From Coq Require Import List ZArith Bool Arith.
 Import ListNotations.
-From PT Require Import Model.Actors Proofs.Actors_proofs.
+From PT Require Import Model.Actors Proofs.Actors_proofs Gen.Gen_Actors.
 Local Close Scope Z_scope.
 Local Open Scope nat_scope.
 
@@ -15,6 +15,15 @@ Theorem C20_non_system_observer_sees_only_the_filtered_view : forall system g v,
   system = false -> observer_view system true (Some g) = Some v -> hides_private v = true.
 Proof. exact observer_view_filtered. Qed.
 Print Assumptions C20_non_system_observer_sees_only_the_filtered_view.
+
+(* THE FIRST CLAUSE IN FULL: whatever the table's status - playing, settled, but also closed or paused in the middle of a hand -
+   a non-system observer that is handed a table with a hand attached is handed the filtered view.  (The fact
+   observer_filters_whenever_a_hand_is_attached is regenerated from observer_runner.go; before the repair recorded as F24 the
+   filter was applied in two statuses only and this statement was false: a table closed mid-hand was shown with its deck.) *)
+Theorem C20_non_system_observer_is_never_shown_private_cards : forall g v,
+  observer_view false observer_filters_whenever_a_hand_is_attached (Some g) = Some v -> hides_private v = true.
+Proof. intros g v H. rewrite observer_always_filters in H. exact (observer_view_filtered false g v eq_refl H). Qed.
+Print Assumptions C20_non_system_observer_is_never_shown_private_cards.
 
 (* what one actor hides or changes in the table it was given is invisible to the engine and to every other actor *)
 Theorem C20_each_actor_works_on_its_own_copy : forall h src f other,
